@@ -118,16 +118,20 @@ def tables_cyclic(k, first=None, entry_pred=False):
             yield table
 
 
-def walk_table(k, table, outcomes):
+def walk_table(k, table, outcomes, split=None):
     """reference walk over the original chain: outcomes[i] is the branch outcome of condition i.  With fixed
-    outcomes, coming back to a condition means control never leaves: the result is then 'LOOP'."""
-    at, seen = 0, set()
+    outcomes, coming back to a condition means control never leaves: the result is then 'LOOP'.  With a statement
+    block on one edge (split) the result also says whether that block is executed on the way ('+S')."""
+    at, seen, s = 0, set(), False
     while at < k:
         if at in seen:
-            return 'LOOP'
+            return 'LOOP' + ('+S' if s else '')
         seen.add(at)
-        at = table[at][0] if outcomes[at] else table[at][1]
-    return 'E%d' % (at - k)
+        side = 0 if outcomes[at] else 1
+        if split is not None and tuple(split) == (at, side):
+            s = True
+        at = table[at][side]
+    return 'E%d' % (at - k) + ('+S' if s else '')
 
 
 def leaf_envs(k, leafs):
@@ -142,9 +146,11 @@ def leaf_envs(k, leafs):
         yield env, tuple(REL[leafs[i][1]](vals[i]) for i in range(k))
 
 
-def build(k, table, leafs):
+def build(k, table, leafs, split=None):
+    """split=(i, side): the edge leaving condition i on its true (0) / false (1) side passes through a statement block
+    (a loop body or a block between two tests) before it reaches its target."""
     from androguard.decompiler.graph import Graph
-    from androguard.decompiler.basic_blocks import CondBlock, ReturnBlock
+    from androguard.decompiler.basic_blocks import CondBlock, ReturnBlock, StatementBlock
     g = Graph()
     if leafs is None:
         conds = [CondBlock('c%d' % i, [StubCond('c%d' % i)]) for i in range(k)]
@@ -154,27 +160,39 @@ def build(k, table, leafs):
     exits = [ReturnBlock('E%d' % i, []) for i in range(NEXITS)]
     allnodes = conds + exits
     used = set()
+    stmt = None
     for i, (t, f) in enumerate(table):
-        conds[i].true = allnodes[t]
-        conds[i].false = allnodes[f]
-        g.add_edge(conds[i], allnodes[t])
-        g.add_edge(conds[i], allnodes[f])
+        tt, ff = allnodes[t], allnodes[f]
+        if split is not None and split[0] == i:
+            stmt = StatementBlock('S', [])
+            g.add_edge(stmt, (tt, ff)[split[1]])
+            if split[1] == 0:
+                tt = stmt
+            else:
+                ff = stmt
+        conds[i].true = tt
+        conds[i].false = ff
+        g.add_edge(conds[i], tt)
+        g.add_edge(conds[i], ff)
         used.update((t, f))
     for i, x in enumerate(allnodes):
         if i < k or i in used:
             g.add_node(x)
+    if stmt is not None:
+        g.add_node(stmt)
     g.entry = conds[0]
     return g
 
 
-def check_instance(ctx, k, table, subset, leafs):
+def check_instance(ctx, k, table, subset, leafs, split=None):
     """subset: bit mask over the post-merge condition nodes (in graph.rpo order) that get neg()+swap."""
     from androguard.decompiler import control_flow
     from androguard.decompiler.writer import Writer
-    rec = {'k': k, 'table': [list(e) for e in table], 'subset': subset, 'leafs': [list(l) for l in leafs] if leafs else None}
+    rec = {'k': k, 'table': [list(e) for e in table], 'subset': subset, 'leafs': [list(l) for l in leafs] if leafs else None,
+           'split': list(split) if split else None}
     kind = 'stub' if leafs is None else 'condz'
     try:
-        g = build(k, table, leafs)
+        g = build(k, table, leafs, split)
         g.compute_rpo()
         idom = g.immediate_dominators()
         control_flow.short_circuit_struct(g, idom, {})
@@ -195,8 +213,8 @@ def check_instance(ctx, k, table, subset, leafs):
         return len(table)
     nsub = bin(subset).count('1')
     cyclic = any(t <= i or f <= i for i, (t, f) in enumerate(table))
-    ctx.case(nontrivial=merged > 0, key=(kind, k, table, subset, leafs),
-             labels=['kind:' + kind, 'k=%d' % k, 'merges=%d' % merged, 'negated-nodes=%d' % nsub,
+    ctx.case(nontrivial=merged > 0, key=(kind, k, table, subset, leafs, split),
+             labels=['kind:' + kind, 'with-statement-block' if split else 'conditions-only', 'k=%d' % k, 'merges=%d' % merged, 'negated-nodes=%d' % nsub,
                      'acyclic' if not cyclic else 'loop-through-entry' if any(0 in e for e in table) else 'with-loop'],
              sample={'k': k, 'table': rec['table'], 'negated_subset': subset, 'leafs': rec['leafs'],
                      'printed': sorted(texts.values())})
@@ -208,16 +226,27 @@ def check_instance(ctx, k, table, subset, leafs):
         ctx.fail('unparsable:' + cls, rec, 'printed condition is not a boolean expression: %s' % e)
         return len(cnodes)
     for env, outcomes in leaf_envs(k, leafs):
-        exp = walk_table(k, table, outcomes)
-        n, visited = g.entry, set()
+        exp = walk_table(k, table, outcomes, split)
+        n, visited, dangling, ran_s = g.entry, set(), None, False
         try:
-            while n.type.is_cond and n not in visited:
-                visited.add(n)
-                n = n.true if boolexpr.eval_ast(asts[n], env) else n.false
+            while n not in visited:
+                if n.type.is_cond:
+                    if n not in asts:
+                        # a condition node that short_circuit_struct took out of the graph is still the target of an edge
+                        dangling = n.name
+                        break
+                    visited.add(n)
+                    n = n.true if boolexpr.eval_ast(asts[n], env) else n.false
+                elif n.type.is_stmt and g.sucs(n):
+                    visited.add(n)
+                    ran_s = True
+                    n = g.sucs(n)[0]
+                else:
+                    break
         except boolexpr.ParseError as e:
             ctx.fail('unparsable:' + cls, rec, 'printed condition cannot be evaluated: %s' % e)
             break
-        got = 'LOOP' if n.type.is_cond else n.name
+        got = ('DANGLING:' + dangling) if dangling else ('LOOP' if (n.type.is_cond or n.type.is_stmt) else n.name) + ('+S' if ran_s else '')
         if got != exp:
             rec['env'] = {a: (b if isinstance(b, bool) else int(b)) for a, b in env.items()}
             rec['expected_exit'], rec['observed_exit'] = exp, got
@@ -227,13 +256,13 @@ def check_instance(ctx, k, table, subset, leafs):
     return len(cnodes)
 
 
-def check_table(ctx, k, table, leaf_sets, all_subsets=True):
+def check_table(ctx, k, table, leaf_sets, all_subsets=True, split=None):
     """one edge table: every negate+swap subset (the number of post-merge nodes is learnt from the first run)"""
     for leafs in leaf_sets:
-        m = check_instance(ctx, k, table, 0, leafs)
+        m = check_instance(ctx, k, table, 0, leafs, split)
         subsets = range(1, 1 << m) if all_subsets else ([(1 << m) - 1] if m else [])
         for s in subsets:
-            check_instance(ctx, k, table, s, leafs)
+            check_instance(ctx, k, table, s, leafs, split)
 
 
 def leaf_rotations(k, j, count):
@@ -249,7 +278,7 @@ NSH4 = 16
 def shards(tier, seed):
     sh = [('k23', 'stub'), ('k23', 'condz', 0), ('k23', 'condz', 1)]
     sh += [('k4', j) for j in range(NSH4)]
-    sh += [('cyc23', 'stub'), ('cyc23', 'condz'), ('cyc23e', 'stub')]
+    sh += [('cyc23', 'stub'), ('cyc23', 'condz'), ('cyc23e', 'stub'), ('split23', 0), ('split23', 1), ('split23', 2), ('split23', 3)]
     if tier == 'thorough':
         sh += [('k5', (t, f)) for t in range(1, 5 + NEXITS) for f in range(1, 5 + NEXITS)]
         sh += [('cyc4', (t, f)) for t in range(1, 4 + NEXITS) for f in range(1, 4 + NEXITS)]
@@ -289,6 +318,19 @@ def run_shard(ctx, shard):
         for k in (2, 3):
             for table in tables_cyclic(k, entry_pred=True):
                 check_table(ctx, k, table, [None])
+    elif shard[0] == 'split23':
+        # every chain (acyclic, with loops, with loops through the entry) with one edge between two conditions routed
+        # through a statement block: loop bodies and blocks between tests
+        j = 0
+        for k in (2, 3):
+            for tabs in (tables(k), tables_cyclic(k), tables_cyclic(k, entry_pred=True)):
+                for table in tabs:
+                    for i, (t, f) in enumerate(table):
+                        for side, tgt in ((0, t), (1, f)):
+                            if tgt < k:
+                                j += 1
+                                if j % 4 == shard[1]:
+                                    check_table(ctx, k, table, [None], split=(i, side))
     elif shard[0] == 'cyc23':
         for k in (2, 3):
             for j, table in enumerate(tables_cyclic(k)):
@@ -300,4 +342,5 @@ def run_shard(ctx, shard):
 
 def replay(ctx, case):
     leafs = tuple(tuple(l) for l in case['leafs']) if case.get('leafs') else None
-    check_instance(ctx, case['k'], tuple(tuple(e) for e in case['table']), case['subset'], leafs)
+    check_instance(ctx, case['k'], tuple(tuple(e) for e in case['table']), case['subset'], leafs,
+                   tuple(case['split']) if case.get('split') else None)
